@@ -243,6 +243,7 @@ fn gen_duration(t: &mut Tape, g: &Gates) -> Lit {
     let mut text = String::new();
     let mut class = format!("units{}", sel.len());
     let mut reject: Option<String> = None;
+    let mut unit_count_over_64 = false;
     for (k, &u) in sel.iter().enumerate() {
         let (name, f) = UNITS[u];
         let first = k == 0;
@@ -275,6 +276,9 @@ fn gen_duration(t: &mut Tape, g: &Gates) -> Lit {
         } else {
             t.below(limit as usize) as u128
         };
+        if v > u64::MAX as u128 {
+            unit_count_over_64 = true;
+        }
         let mut num = v.to_string();
         if t.ratio(1, 8) && num.len() > 1 {
             num = underscores(&num, t);
@@ -330,7 +334,16 @@ fn gen_duration(t: &mut Tape, g: &Gates) -> Lit {
     let full = format!("{}{}{}", prefix, if neg { "-" } else { "" }, text);
     let expect = match reject {
         Some(r) => Expect::Reject(r),
-        None => Expect::Duration(if neg { -total } else { total }),
+        None => {
+            let e = Expect::Duration(if neg { -total } else { total });
+            // a unit count that does not fit the dsl's 64-bit FixedPoint: rejecting it is as
+            // acceptable as reading it exactly (never a different value)
+            if unit_count_over_64 {
+                Expect::Either(Box::new(e))
+            } else {
+                e
+            }
+        }
     };
     let embed = if t.ratio(1, 6) { Embed::TaskInterval } else { Embed::Init };
     Lit { text: full, expect, family: "duration", class, embed }
